@@ -22,18 +22,18 @@ def firstLine (ls : List Line) : Nat := (ls.head?.map (·.line)).getD 0
 numbers defined and strictly ascending, fewer than 64 lines (`dx->sliced[64]`; a 64th line can be
 stored, but the frame is then never closed: `line_address` reports the overflow before it looks at
 the line number) -/
-def LinesOK (ls : List Line) : Prop := ls ≠ [] ∧ AscFrom 0 ls ∧ ls.length < 64
+def FrameLinesOK (ls : List Line) : Prop := ls ≠ [] ∧ AscFrom 0 ls ∧ ls.length < 64
 
 /-- consecutive packets are separable frames: each begins on a line not beyond the last line of the
 one before (`x`: last line of the frame before the first packet) -/
 def SepFrom : Nat → List (List Line) → Prop
   | _, [] => True
-  | x, a :: r => LinesOK a ∧ firstLine a ≤ x ∧ SepFrom (lastLineOf 0 a) r
+  | x, a :: r => FrameLinesOK a ∧ firstLine a ≤ x ∧ SepFrom (lastLineOf 0 a) r
 
 /-- a whole stream of separable frames (nothing is required of the first frame's first line) -/
 def Sep : List (List Line) → Prop
   | [] => True
-  | a :: r => LinesOK a ∧ SepFrom (lastLineOf 0 a) r
+  | a :: r => FrameLinesOK a ∧ SepFrom (lastLineOf 0 a) r
 
 /-- the stream machine at a packet boundary holding frame `q`, reading packets `pks` -/
 theorem arun_stream_from : ∀ (pks : List (Bytes × Pes)) (fs : FS) (q : Pes),
